@@ -44,9 +44,19 @@ fn statement_dependencies(statement: &Statement) -> BTreeSet<usize> {
         }
         S::Ret { value: None, .. } => BTreeSet::new(),
 
-        S::Blob { .. }
-        | S::Enum { .. }
-        | S::ExternalDefinition { .. }
+        // A type has to be declared after the types its fields or variants mention - otherwise
+        // they are unknown while it is typechecked. (A type can mention itself.)
+        S::Blob { var, fields: types, .. } | S::Enum { var, variants: types, .. } => {
+            let mut deps = types
+                .values()
+                .map(|(_, ty)| ty_dependency(ty))
+                .flatten()
+                .collect::<BTreeSet<_>>();
+            deps.remove(var);
+            deps
+        }
+
+        S::ExternalDefinition { .. }
         | S::Break(..)
         | S::Continue(..)
         | S::Unreachable(..) => BTreeSet::new(),
